@@ -194,11 +194,14 @@ impl store::Cob for Issue {
     ) -> Result<(), Error> {
         let doc = op.identity_doc(repo)?.ok_or(Error::MissingIdentity)?;
         let concurrent = concurrent.into_iter().collect::<Vec<_>>();
+        // Nb. The actions are applied to a copy of the state, which replaces the
+        // state only if all of them succeed: a rejected operation has no effect.
+        let mut issue = self.clone();
 
         for action in op.actions {
             log::trace!(target: "issue", "Applying {} {action:?}", op.id);
 
-            if let Err(e) = self.op_action(
+            if let Err(e) = issue.op_action(
                 action,
                 op.id,
                 op.author,
@@ -211,6 +214,8 @@ impl store::Cob for Issue {
                 return Err(e);
             }
         }
+        *self = issue;
+
         Ok(())
     }
 }
